@@ -47,6 +47,7 @@ type FuncContract struct {
 }
 
 type SpecFunc struct {
+	Macro     bool // always expanded inline
 	Name      string
 	Params    []QVar
 	Result    *TypeExpr
@@ -445,8 +446,14 @@ func ParseContractFile(path, pkg string) (*ContractFile, error) {
 }
 
 func parseSpecFunc(kw, rest string, line int) (*SpecFunc, error) {
-	rest = strings.TrimSpace(strings.TrimPrefix(strings.TrimSpace(rest), "func"))
-	sf := &SpecFunc{Line: line, Text: rest}
+	rest = strings.TrimSpace(rest)
+	macro := false
+	if strings.HasPrefix(rest, "macro ") {
+		macro = true
+		rest = strings.TrimSpace(strings.TrimPrefix(rest, "macro"))
+	}
+	rest = strings.TrimSpace(strings.TrimPrefix(rest, "func"))
+	sf := &SpecFunc{Line: line, Text: rest, Macro: macro}
 	lp := strings.Index(rest, "(")
 	if lp < 0 {
 		return nil, fmt.Errorf("spec func: missing (")
